@@ -6,6 +6,8 @@ import (
 	"fmt"
 	"io"
 	"log"
+	"runtime/debug"
+	"strings"
 
 	"github.com/getkin/kin-openapi/openapi3"
 	"github.com/vkd/goag"
@@ -31,8 +33,22 @@ func Generate(doc []byte, outDir string, o Options) (err error, panicked bool, p
 	defer func() {
 		if r := recover(); r != nil {
 			panicked = true
-			panicVal = r
-			err = fmt.Errorf("panic: %v", r)
+			// the first frames inside /repo identify the crash site
+			site := ""
+			for _, l := range strings.Split(string(debug.Stack()), "\n") {
+				l = strings.TrimSpace(l)
+				if strings.HasPrefix(l, "/repo/") {
+					if i := strings.Index(l, " "); i > 0 {
+						l = l[:i]
+					}
+					site += " " + strings.TrimPrefix(l, "/repo/")
+					if strings.Count(site, " ") >= 3 {
+						break
+					}
+				}
+			}
+			panicVal = fmt.Sprintf("%v @%s", r, site)
+			err = fmt.Errorf("panic: %v", panicVal)
 		}
 	}()
 	sw, lerr := openapi3.NewSwaggerLoader().LoadSwaggerFromData(doc)
